@@ -230,6 +230,23 @@ class NFEval:
     def is_zero(self, x):
         return isinstance(x, Mono) and x.coef == 0
 
+    def equal(self, a, b):
+        """a == b as normal forms: their difference normalises to 0 on every piece (so that
+        -(x - y), y - x and (-1)*(x - y) are the same value)."""
+        if a is NAN or b is NAN:
+            return a is b
+        if isinstance(a, Struct) or isinstance(b, Struct):
+            return a.key() == b.key()
+        if a.key() == b.key():
+            return True
+        d = self.add(a, b, -1)
+        for conds, leaf in leaves(d):
+            if leaf is NAN:
+                continue
+            if isinstance(leaf, Struct) or not self.is_zero(leaf):
+                return False
+        return True
+
     # -- condition keys ------------------------------------------------------
     def ckey(self, n, depth=0):
         if n is None:
